@@ -65,6 +65,17 @@ def command_pass(ctx):
     r = ctx.rng
     n = 500 if ctx.quick() else 5000
     cases = [srv.gen_script(r, 'tcp' if r.random() < 0.6 else 'rtu') for _ in range(n)]
+    # every class the coverage obligation below asks for is also present by construction (a random script
+    # reaches "left blocked at the end" only about once in 200, which made the obligation depend on the seed)
+    for k in range(12):
+        link = 'tcp' if k % 2 == 0 else 'rtu'
+        base = srv.gen_session(r, link, nframes=2, big_ok=False, raw=0)
+        fr = [f for f in base[3] if srv.classify(f[2]).startswith('valid') and f[1] != 0]
+        if not fr:
+            continue
+        f = fr[0]
+        for script in ((f,), (f, '@shutdown'), ('@block', f), ('@block', f, '@max', '@shutdown'), ('@failwrite', f), ('@block', f, '@close')):
+            cases.append((base[0], base[1], base[2], tuple(script)))
     impl, norm, both = srv.run_scripts(ctx, cases)
     bad = []
     ends = {}
